@@ -122,6 +122,27 @@ def run_timers(prop, tier, seed, cap=None, kcap=None):
     return out
 
 
+def run_core_focus(cfg, prop, tier, seed, cap=None):
+    """Focused exhaustive Core configuration whose every final state is exported."""
+    import random
+    out = {"states": 0, "transitions": 0, "cases": [], "violations": [], "specs": ["Core/" + cfg]}
+    st, tr, bad, text = _tlc_mc("MCCore.tla", cfg, "coref-%s-%s" % (cfg, prop))
+    out["states"] += st
+    out["transitions"] += tr
+    if bad and "is violated" in bad:
+        out["violations"].append({"why": "design spec Core (%s) violates the abstract monitor" % cfg,
+                                  "replay": _save("%s-core-%s" % (prop, cfg), text), "sig": "tlc"})
+        return out
+    behs = coreexport.parse_cases(text)
+    cap = cap or (3000 if tier == "quick" else 100000)
+    if len(behs) > cap:
+        random.Random(seed).shuffle(behs)
+        behs = behs[:cap]
+    for i, b in enumerate(behs):
+        out["cases"].append(coreexport.build_case(b, "%s-%d" % (cfg.replace(".cfg", ""), i), shape_seed=seed))
+    return out
+
+
 # property -> list of runners
 SPECS = {
     "C07": [lambda p, t, s: run_timers(p, t, s)],
@@ -134,9 +155,10 @@ SPECS = {
     "C15": [lambda p, t, s: run_core("q", p, t, s)],
     "C02": [lambda p, t, s: run_core("a", p, t, s)],
     "C03": [lambda p, t, s: run_core("a", p, t, s)],
-    "C04": [lambda p, t, s: run_core("a", p, t, s)],
+    "C04": [lambda p, t, s: run_core("a", p, t, s), lambda p, t, s: run_core_focus("MCCoreO.cfg", p, t, s)],
     "C05": [lambda p, t, s: run_core("a", p, t, s)],
-    "C16": [lambda p, t, s: run_core("a", p, t, s), lambda p, t, s: run_core("q", p, t, s)],
+    "C16": [lambda p, t, s: run_core("a", p, t, s), lambda p, t, s: run_core("q", p, t, s),
+            lambda p, t, s: run_core_focus("MCCoreO.cfg", p, t, s, cap=1500)],
     "C20": [lambda p, t, s: run_core("l", p, t, s), lambda p, t, s: run_core("l2", p, t, s)],
 }
 
